@@ -340,6 +340,9 @@ CpKinds ==
      BaseBYE, Fb("PLI"), BaseAPP, MkXR(<< XrB("rrt") >>), RawOf(199, 3, Ramp(4, 50)),
      [BaseAPP EXCEPT !.data = << 7 >>] >>                                                       \* a member that is padded (P bit set)
 CpSeqs(maxlen) == UNION { [1..n -> 1..Len(CpKinds)] : n \in 0..maxlen }
+\* one length more over a reduced set: SR, RR, SDES with CNAME, SDES without, BYE, feedback, padded APP
+CpReduced == {1, 2, 4, 8, 10, 11, 15}
+CpSeqsExtra(len) == [1..len -> CpReduced]
 CpOf(s) == [i \in 1..Len(s) |-> CpKinds[s[i]]]
 
 
@@ -398,6 +401,25 @@ TextDom ==
   { [k |-> "SDES", chunks |-> << Chunk1(1, << Item(1, 2), [t |-> 2, text |-> tx] >>) >>] : tx \in OctetTexts }
   \cup { [BaseBYE EXCEPT !.reason = tx] : tx \in OctetTexts }
   \cup { [BaseAPP EXCEPT !.data = tx, !.name = Fill(4, 128)] : tx \in { Fill(n, x) : n \in {1, 64, 65}, x \in {128, 255} } }
+
+\* ---- values with unaligned variable-length parts (C05: if Marshal succeeds the output is framed and its size is MarshalSize) ----
+OddRle(n) == [XrB("lrle") EXCEPT !.chunks = [i \in 1..n |-> (300 + i) % 65536]]
+UnalignedDom ==
+  { MkXR(<< OddRle(1) >>), MkXR(<< OddRle(3) >>), MkXR(<< OddRle(1), OddRle(1) >>), MkXR(<< OddRle(3), XrB("rrt"), OddRle(5) >>),
+    MkXR(<< OddRle(1), [XrB("drle") EXCEPT !.chunks = << 9 >>] >>), MkXR(<< OddRle(2), OddRle(1) >>) }
+  \cup { MkXR(<< [XrB("unk") EXCEPT !.bytes = Ramp(n, 7)] >>) : n \in {1, 2, 3, 5} }
+  \cup { MkXR(<< [XrB("unk") EXCEPT !.bytes = Ramp(2, 7)], [XrB("unk") EXCEPT !.bytes = Ramp(2, 9)] >>) }
+  \cup { [BaseSR EXCEPT !.ext = Ramp(n, 3)] : n \in {1, 2, 3, 5, 7} }
+\* ---- values with a field wider than its wire field (the library masks such fields silently; whatever it does,
+\* the neighbouring fields must not be corrupted: Judge.tla Masked) --------------------------------------------
+OversizeDom ==
+  { [BaseSLI EXCEPT !.sli = << Sli(f, n, p), Sli(1, 2, 3) >>] : f \in {5, 8192, 8197, 65535}, n \in {6, 8192, 9000, 65535}, p \in {7, 64, 255} }
+  \cup { [BaseCCFB EXCEPT !.blocks = << CcBlock(D4(5), 1, << Mb(TRUE, e, a), Mb(TRUE, 1, 2) >>) >>] : e \in {1, 4, 255}, a \in {3, 8192, 65535} }
+  \cup { MkTWCC(1, << [Rl(1, 1) EXCEPT !.sym = s, !.run = r] >>, << Dl(1, 7) >>, FALSE) : s \in {1, 5}, r \in {1, 8192, 8193, 40000, 65535} }
+  \cup { [MkTWCC(1, << Rl(1, 1) >>, << Dl(1, 7) >>, FALSE) EXCEPT !.ref = << x, 1, 2, 3 >>] : x \in {1, 255} }
+  \cup { MkXR(<< [XrB(b) EXCEPT !.t = t] >>) : b \in {"lrle", "prt"}, t \in {16, 37, 255} }
+  \cup { MkXR(<< [XrB("ss") EXCEPT !.toh = t] >>) : t \in {4, 7, 255} }
+LooseDom == UnalignedDom \cup OversizeDom
 
 PairAll == DupDom \cup TextDom \cup PairSR \cup PairRR \cup PairSDES \cup PairBYE \cup PairAPP \cup PairNACK \cup PairSLI \cup PairFIR \cup PairREMB \cup PairCCFB
 =============================================================================
